@@ -13,7 +13,9 @@ import (
 	"math/rand"
 	"sort"
 
+	"github.com/tikv/pd/server/core"
 	"github.com/tikv/pd/server/schedule/placement"
+	"verif/harness/lib/sim"
 )
 
 type configDesc struct {
@@ -25,7 +27,7 @@ type configDesc struct {
 
 // updateDesc is one change of the cluster between two rounds.
 type updateDesc struct {
-	Kind     string      `json:"kind"` // rule-set | rule-delete-set | rules-batch | rule-delete | store | config
+	Kind     string      `json:"kind"` // rule-set | rule-get-edit-set | rule-delete-set | rules-batch | rule-delete | store | config
 	What     string      `json:"what"` // what the generator meant (documentation only)
 	Rules    []ruleDesc  `json:"rules,omitempty"`
 	DeleteID string      `json:"delete_rule,omitempty"`
@@ -44,8 +46,8 @@ func (u *updateDesc) class() string {
 }
 
 type roundDesc struct {
-	Update  *updateDesc `json:"update,omitempty"`
-	Regions []string    `json:"regions"`
+	Update  *updateDesc  `json:"update,omitempty"`
+	Regions []regionDesc `json:"regions"`
 }
 
 func cloneWorld(w *world) *world {
@@ -68,6 +70,18 @@ func applyUpdate(s *stats, cl *cluster, cur *world, u *updateDesc) error {
 	case "rule-set":
 		for i := range u.Rules {
 			refused(cl.RuleManager.SetRule(toRule(&u.Rules[i])))
+		}
+	case "rule-get-edit-set":
+		// the API handler's pattern: get the served rule, edit the object, set it again
+		for i := range u.Rules {
+			n := toRule(&u.Rules[i])
+			r := cl.RuleManager.GetRule("pd", n.ID)
+			if r == nil {
+				refused(cl.RuleManager.SetRule(n))
+				continue
+			}
+			r.Role, r.Count, r.LabelConstraints, r.LocationLabels, r.IsolationLevel = n.Role, n.Count, n.LabelConstraints, n.LocationLabels, n.IsolationLevel
+			refused(cl.RuleManager.SetRule(r))
 		}
 	case "rule-delete-set":
 		for i := range u.Rules {
@@ -93,7 +107,7 @@ func applyUpdate(s *stats, cl *cluster, cur *world, u *updateDesc) error {
 		if !found {
 			return fmt.Errorf("update of unknown store %d", u.Store.ID)
 		}
-		return putStore(cl.Cluster, u.Store)
+		return updateStore(cl.Cluster, u.Store)
 	case "config":
 		cur.MaxReplicas = u.Config.MaxReplicas
 		cur.LocationLabels = append([]string(nil), u.Config.LocationLabels...)
@@ -149,9 +163,9 @@ func genConstraints(rng *rand.Rand, zones []string) []consDesc {
 	case x < 88:
 		return []consDesc{{Key: "engine", Op: "in", Values: []string{"tiflash"}}}
 	case x < 94:
-		return []consDesc{{Key: "host", Op: "in", Values: []string{hostNames[rng.Intn(len(hostNames))], hostNames[rng.Intn(len(hostNames))]}}}
+		return []consDesc{{Key: "host", Op: "in", Values: []string{hostNames[rng.Intn(3)], hostNames[rng.Intn(3)]}}}
 	default:
-		return []consDesc{{Key: "rack", Op: "in", Values: []string{rackNames[rng.Intn(len(rackNames))]}}}
+		return []consDesc{{Key: "rack", Op: "in", Values: []string{rackNames[rng.Intn(2)]}}}
 	}
 }
 
@@ -223,11 +237,18 @@ func genStoreUpdate(rng *rand.Rand, cur *world) *updateDesc {
 	}
 	switch x := rng.Intn(100); {
 	case x < 30:
-		z := zoneNames[rng.Intn(len(zoneNames))]
+		zs := zonesOf(cur)
+		z := zoneNames[rng.Intn(4)]
+		if len(zs) > 0 && rng.Intn(4) != 0 {
+			z = zs[rng.Intn(len(zs))]
+		}
 		setLabel("zone", z)
 		what = "zone=" + z
 	case x < 40:
-		h := hostNames[rng.Intn(len(hostNames))]
+		h := hostNames[rng.Intn(3)]
+		if cur.Scale == "large" {
+			h = hostNames[rng.Intn(len(hostNames))]
+		}
 		setLabel("host", h)
 		what = "host=" + h
 	case x < 52:
@@ -311,16 +332,24 @@ func genRuleUpdate(rng *rand.Rand, cl *cluster, cur *world) *updateDesc {
 	sort.Slice(rules, func(i, j int) bool { return rules[i].ID < rules[j].ID })
 	zones := zonesOf(cur)
 	pick := rules[rng.Intn(len(rules))]
+	for i := 0; i < 8 && len(pick.StartKeyHex) > 0 && rng.Intn(4) != 0; i++ {
+		pick = rules[rng.Intn(len(rules))] // mostly a rule without key range (it applies to every region)
+	}
 	nd, what := mutateRule(rng, descOfRule(pick), zones)
 	switch x := rng.Intn(100); {
-	case x < 60:
+	case x < 45:
 		return &updateDesc{Kind: "rule-set", What: "rule " + nd.ID + ": " + what, Rules: []ruleDesc{nd}}
+	case x < 60:
+		return &updateDesc{Kind: "rule-get-edit-set", What: "rule " + nd.ID + ": " + what, Rules: []ruleDesc{nd}}
 	case x < 78:
 		return &updateDesc{Kind: "rule-delete-set", What: "rule " + nd.ID + ": " + what, Rules: []ruleDesc{nd}}
 	case x < 94:
 		// SetRules: the new version of every rule (one or two of them changed)
 		var all []ruleDesc
 		for _, r := range rules {
+			if len(rules) > 12 && r.ID != nd.ID && rng.Intn(len(rules)) > 6 {
+				continue
+			}
 			d := descOfRule(r)
 			if r.ID == nd.ID {
 				d = nd
@@ -358,6 +387,83 @@ const (
 	regionsPerRound = 4
 )
 
+// worldRun is one history in progress.
+type worldRun struct {
+	s       *stats
+	cl      *cluster
+	w0, cur *world
+	history []roundDesc
+	seen    map[string]bool
+	pop     map[uint64]*sim.Region // the regions of the cluster as they are now
+	popIDs  []uint64
+	nextID  uint64
+}
+
+func (h *worldRun) suffix() string {
+	switch {
+	case h.seen["rule"]:
+		return ":after-rule-update"
+	case h.seen["store"]:
+		return ":after-store-update"
+	case h.seen["config"]:
+		return ":after-config-update"
+	}
+	return ""
+}
+
+func (h *worldRun) setRegion(r *sim.Region) *core.RegionInfo {
+	if _, ok := h.pop[r.ID]; !ok {
+		h.popIDs = append(h.popIDs, r.ID)
+	}
+	h.pop[r.ID] = r
+	info := r.Info()
+	h.cl.PutRegion(info)
+	return info
+}
+
+func (h *worldRun) kaseOf(r *sim.Region, round int, hist []roundDesc, snapshot *world, failAlloc string) *kase {
+	return &kase{World: snapshot, Region: layoutOf(r), RegionID: r.ID, ConfVer: r.ConfVer, NoLeader: r.LeaderStore == 0,
+		FailAlloc: failAlloc, Initial: h.w0, History: hist, Round: round}
+}
+
+// genRound draws the regions of a round: new ones and revisits of regions checked before (as they are
+// now: possibly changed by the operator proposed for them).
+func (h *worldRun) genRound(rng *rand.Rand, round int, afterRuleUpdate bool) []regionDesc {
+	nNew, nRev := regionsPerRound, 2
+	if h.cur.Scale == "large" {
+		nNew, nRev = 24, 8
+		if round == roundsPerWorld-1 {
+			nNew, nRev = 8, len(h.popIDs) // a full patrol over the population (more than one scan page)
+		}
+	}
+	var out []regionDesc
+	for i := 0; i < nNew; i++ {
+		specs := genRegion(rng, h.cur, afterRuleUpdate && i%2 == 0)
+		d := regionDesc{ID: h.nextID, Layout: layoutString(specs)}
+		h.nextID++
+		if rng.Intn(50) == 0 {
+			for j := range specs {
+				specs[j].Leader = false
+			}
+			d.Layout, d.NoLeader = layoutString(specs), true
+		}
+		out = append(out, d)
+	}
+	if nRev > len(h.popIDs) {
+		nRev = len(h.popIDs)
+	}
+	for _, i := range rng.Perm(len(h.popIDs))[:nRev] {
+		r := h.pop[h.popIDs[i]]
+		out = append(out, regionDesc{ID: r.ID, ConfVer: r.ConfVer, Layout: layoutOf(r), NoLeader: r.LeaderStore == 0, Revisit: true})
+	}
+	for i := range out {
+		if rng.Intn(16) == 0 {
+			out[i].FailAlloc = []string{"direct", "controller", "both"}[rng.Intn(3)]
+		}
+	}
+	return out
+}
+
 // runHistory runs one world: with rng != nil the rounds are generated on the fly (rule updates are
 // derived from the rules the rule manager serves at that moment), otherwise the given rounds are replayed.
 func runHistory(s *stats, w0 *world, rng *rand.Rand, fixed []roundDesc) error {
@@ -369,13 +475,16 @@ func runHistory(s *stats, w0 *world, rng *rand.Rand, fixed []roundDesc) error {
 	s.count("worlds", 1)
 	s.count("worlds_rules_"+w0.Rules, 1)
 	s.count("worlds_mode_"+w0.Mode, 1)
+	if w0.Scale != "" {
+		s.count("worlds_"+w0.Scale, 1)
+		s.count(fmt.Sprintf("worlds_large_stores_%d", len(w0.Stores)), 1)
+		s.count("rules_served_in_large_worlds", int64(len(cl.RuleManager.GetAllRules())))
+	}
 	s.count("rules_refused_by_pd_no_store_matches", int64(cl.rulesDropped))
 	if cl.defaultKept {
 		s.count("worlds_custom_rules_without_voter_default_rule_kept", 1)
 	}
-	cur := cloneWorld(w0)
-	var history []roundDesc
-	seen := map[string]bool{}
+	h := &worldRun{s: s, cl: cl, w0: w0, cur: cloneWorld(w0), seen: map[string]bool{}, pop: map[uint64]*sim.Region{}, nextID: regionBase}
 	n := roundsPerWorld
 	if rng == nil {
 		n = len(fixed)
@@ -385,41 +494,65 @@ func runHistory(s *stats, w0 *world, rng *rand.Rand, fixed []roundDesc) error {
 		if rng == nil {
 			rd = fixed[round]
 		} else if round > 0 {
-			rd.Update = genUpdate(rng, cl, cur)
+			rd.Update = genUpdate(rng, cl, h.cur)
 		}
 		if rd.Update != nil {
-			if err := applyUpdate(s, cl, cur, rd.Update); err != nil {
+			if err := applyUpdate(s, cl, h.cur, rd.Update); err != nil {
 				return err
 			}
-			seen[rd.Update.class()] = true
+			h.seen[rd.Update.class()] = true
 		}
 		if rng != nil {
-			small := rd.Update != nil && rd.Update.class() == "rule"
-			for i := 0; i < regionsPerRound; i++ {
-				rd.Regions = append(rd.Regions, layoutString(genRegion(rng, cur, small && i%2 == 0)))
-			}
+			rd.Regions = h.genRound(rng, round, rd.Update != nil && rd.Update.class() == "rule")
 		}
-		history = append(history, rd)
-		suffix := ""
-		switch {
-		case seen["rule"]:
-			suffix = ":after-rule-update"
-		case seen["store"]:
-			suffix = ":after-store-update"
-		case seen["config"]:
-			suffix = ":after-config-update"
-		}
+		h.history = append(h.history, rd)
+		suffix := h.suffix()
 		s.count("rounds", 1)
 		if suffix == "" {
 			s.count("rounds_before_any_update", 1)
 		} else {
 			s.count("rounds"+suffix, 1)
 		}
-		views := storeViews(cl, cur)
-		snapshot := cloneWorld(cur)
-		hist := append([]roundDesc(nil), history...)
-		for _, layout := range rd.Regions {
-			exec(s, cl, views, &kase{World: snapshot, Region: layout, Initial: w0, History: hist, Round: round}, suffix)
+		views := storeViews(cl, h.cur)
+		snapshot := cloneWorld(h.cur)
+		hist := append([]roundDesc(nil), h.history...)
+		for _, d := range rd.Regions {
+			r, err := regionFromDesc(d.ID, d.ConfVer, d.Layout)
+			if err != nil {
+				s.count("harness_bad_layout", 1)
+				continue
+			}
+			if d.Revisit {
+				s.count("region_revisits", 1)
+			}
+			h.setRegion(r)
+			k := h.kaseOf(r, round, hist, snapshot, d.FailAlloc)
+			final := exec(s, cl, views, k, suffix)
+			if rng != nil && final != nil && rng.Intn(2) == 0 {
+				// the proposed operator is executed: the region the next rounds see is its outcome
+				h.setRegion(final)
+				s.count("regions_evolved_by_the_proposed_operator", 1)
+			}
+		}
+		// the patrol loop's pass over the checker's waiting list: ids, looked up again in the cluster
+		for _, item := range cl.controller.GetWaitingRegions() {
+			info := cl.GetRegion(item.Key)
+			r := h.pop[item.Key]
+			if info == nil || r == nil {
+				continue
+			}
+			c, err := prepare(cl, views, h.kaseOf(r, round, hist, snapshot, ""))
+			if err != nil {
+				continue
+			}
+			c.suffix = suffix
+			c.info = info
+			res := invoke(cl, c.rulesOn(), info, "controller-waiting-list", false)
+			s.count("checker_calls", 1)
+			c.judgeCall(s, &res)
+			if len(res.ops) > 0 {
+				cl.controller.RemoveWaitingRegion(item.Key)
+			}
 		}
 	}
 	return nil
